@@ -18,6 +18,15 @@ import (
 
 const Root = "/verif"
 
+// evidenceDir: /verif/evidence, or a scratch directory when a mutant overlay is active so that
+// demonstration runs never overwrite the evidence of the real tree.
+func evidenceDir() string {
+	if os.Getenv("VERIF_OVERLAY") != "" {
+		return filepath.Join(Root, ".work", "mut-evidence")
+	}
+	return filepath.Join(Root, "evidence")
+}
+
 // Check is one registered property check.
 type Check struct {
 	ID     string
@@ -444,8 +453,8 @@ func parent(ck *Check, tier string, seed int64, dl time.Duration) {
 			fmt.Printf("KNOWN-FINDING: property=%s %s (%d witnesses this run)\n", ck.ID, f.What, known[i])
 		}
 	}
-	os.MkdirAll(filepath.Join(Root, "evidence", "replays"), 0755)
-	old, _ := filepath.Glob(filepath.Join(Root, "evidence", "replays", ck.ID+"-*.json"))
+	os.MkdirAll(filepath.Join(evidenceDir(), "replays"), 0755)
+	old, _ := filepath.Glob(filepath.Join(evidenceDir(), "replays", ck.ID+"-*.json"))
 	for _, o := range old {
 		os.Remove(o)
 	}
@@ -453,7 +462,7 @@ func parent(ck *Check, tier string, seed int64, dl time.Duration) {
 		if i >= 10 {
 			break
 		}
-		path := filepath.Join(Root, "evidence", "replays", fmt.Sprintf("%s-%d.json", ck.ID, i))
+		path := filepath.Join(evidenceDir(), "replays", fmt.Sprintf("%s-%d.json", ck.ID, i))
 		art := map[string]any{"property": ck.ID, "tier": tier, "violation": v, "replay_cmd": fmt.Sprintf("./vcheck %s --replay %s", ck.ID, path)}
 		b, _ := json.MarshalIndent(art, "", " ")
 		os.WriteFile(path, b, 0644)
@@ -538,8 +547,8 @@ func writeEvidence(ck *Check, m *Merged, tier string, seed int64, wall time.Dura
 		ev["known_findings_seen"] = kf
 	}
 	b, _ := json.MarshalIndent(ev, "", " ")
-	os.MkdirAll(filepath.Join(Root, "evidence"), 0755)
-	os.WriteFile(filepath.Join(Root, "evidence", ck.ID+".json"), b, 0644)
+	os.MkdirAll(evidenceDir(), 0755)
+	os.WriteFile(filepath.Join(evidenceDir(), ck.ID+".json"), b, 0644)
 }
 
 // HarnessFlush writes the partial result now (used by watchdogs that are about to leave the process).
